@@ -136,7 +136,9 @@ def _replay(item):
     with open(tpath, "a") as f:
       f.write(json.dumps({"ev": "call", "prev": prev, "first": first, "last": last, "sig": g}) + "\n")
     try:
-      res = q.calibrate([d[g - 1] for d in data[first - 1:last]], signature_key=sigkey[g - 1] if nsub > 1 else None, previous_calibration_result=prev_obj)
+      # the dataset is handed over as a list, a generator or a one-shot iterator (all are `Iterable`)
+      dataset = common.as_dataset([d[g - 1] for d in data[first - 1:last]], seed + r + len(beh["base"]) + sum(map(int, beh["sel"])))
+      res = q.calibrate(dataset, signature_key=sigkey[g - 1] if nsub > 1 else None, previous_calibration_result=prev_obj)
     except Exception as e:  # pylint: disable=broad-except
       out["problems"].append(("raise", "session %d raised %s: %s" % (r + 1, type(e).__name__, str(e)[:120])))
       return out
